@@ -338,6 +338,7 @@ func VerifyFunc(P *Program, fn *ssa.Function, c *Contract, cf *ContractFile, ins
 		declared := map[string]bool{}
 		dctx := f.evalCtx(st, nil)
 		dctx.at = fn.Blocks[0]
+		dctx.onlyParams = true
 		for _, a := range c.Acquires {
 			if key, ok := e.lockKeyFromText(dctx, a); ok {
 				declared[key] = true
